@@ -118,7 +118,7 @@ template <class PS> void add_pset_ops(ObjHarness<PS>& H) {
                 if (disjuncts(*x) > 1) def_violation("collapse-size", "more than one disjunct after collapse");
                 if (hull) { D want(x->space_dimension(), PPL::EMPTY); want.add_disjunct(*hull); if (!same_value(*x, want)) def_violation("collapse-value", "collapse is not the base-level upper bound of the disjuncts"); } }
               return std::string(); }; } });
-  H.add({ "size_and_iterate", 1, F_OBS | F_ANS | F_FAULT, 6, NOGEN,
+  H.add({ "size_and_iterate", 1, F_OBS | F_ANS | F_SYNT | F_FAULT, 6, NOGEN,
     PREPF { D* x = e.o[0]; return [x]() { size_t n = x->size(), k = 0; const D& cx = *x; for (typename D::const_iterator i = cx.begin(); i != cx.end(); ++i) ++k;
               if (k != n && g_def.active) def_violation("size-vs-iteration", "size() " + std::to_string(n) + " but iteration visits " + std::to_string(k));
               return std::to_string(n); }; } });
